@@ -112,6 +112,7 @@ type Interp struct {
 	modelHits  int
 	lits       map[string]bool
 	litHits    int
+	conc       *concRun          // non-nil: concrete (conformance) mode
 	fixed      map[string]uint64 // variables uniquely determined by the path condition
 	free       map[string]bool   // variables found not (yet) determined
 	userState  map[string]Value
@@ -139,7 +140,9 @@ func (in *Interp) info(fn *ssa.Function) *fnInfo {
 			}
 		}
 	}
-	in.fninfo[fn] = fi
+	if fn.Blocks != nil || fn.Pkg == nil {
+		in.fninfo[fn] = fi
+	}
 	return fi
 }
 
@@ -350,6 +353,8 @@ func (in *Interp) constVal(c *ssa.Const) Value {
 }
 
 // ---------- decisions ----------
+
+var buildMu sync.Mutex
 
 var (
 	decideProf   map[string]int
@@ -717,6 +722,9 @@ func (in *Interp) choose(n int) int {
 	if n == 1 {
 		return 0
 	}
+	if in.conc != nil {
+		return in.conc.rnd.Intn(n)
+	}
 	d := len(in.taken)
 	if d < len(in.prefix) {
 		dec := in.prefix[d]
@@ -912,9 +920,13 @@ func (in *Interp) initPackage(p *ssa.Package) {
 func (in *Interp) call(fn *ssa.Function, args []Value, free []Value) (ret Value) {
 	fi, okfi := in.fninfo[fn]
 	if !okfi {
+		// SSA function bodies are built lazily, one package at a time; the global lock makes sure no
+		// worker ever observes a function of a package that another worker is still building.
+		buildMu.Lock()
 		if fn.Blocks == nil && fn.Pkg != nil {
 			fn.Pkg.Build()
 		}
+		buildMu.Unlock()
 		fi = in.info(fn)
 	}
 	if !fi.resolved {
